@@ -1,7 +1,8 @@
 """Tracing recipe for C04: the exponents (and sampled values) of the lens phases and of the Fresnel
 impulse responses of both APIs, with symbolic k, focal length, dx, wavelength and distance, on a small
-non-square grid.  The transfer-function kernels (as / tf / bl / nas / ntf / nbl) are traced by the shared
-recipe tracer/recipes/wave.py (Run.GenWaveK); this recipe adds Run.GenC04."""
+non-square grid.  The transfer-function kernels (as / tf / bl / nas / ntf / nbl, incl. the band-limit masks bl_mask / nbl_mask,
+all read off the finished kernel samples) are traced by the shared recipe tracer/recipes/wave.py (Run.GenWaveK); this recipe adds
+Run.GenC04.  Nothing here refers to a local variable name of the traced functions."""
 from tracer import shim, opshim
 from tracer.emit import Gen
 from tracer.recipes import wave as W
@@ -109,84 +110,7 @@ def trace():
             g.add('nir_ph_%d_%d' % (i, j), A4, ph[i, j])
             g.add('nir_re_%d_%d' % (i, j), A4, e.re); g.add('nir_im_%d_%d' % (i, j), A4, e.im)
     info['nir_pipeline'] = opshim.coq(W._name_lits(term))
-    # ------------------------------------------------------------ numpy band-limit mask (the torch mask is bl_mask_i_j of Run.GenWaveK)
-    ns = opshim.namespace()
-    shim.load('odak/wave/classical.py', ['band_limited_angular_spectrum'], ns, expose={'band_limited_angular_spectrum': ['H_filter']})
-    ns['band_limited_angular_spectrum'](opshim.fvar('u', shape=(NX, NY)), k, z, dx, lam)
-    M = ns['__exposed__']['band_limited_angular_spectrum.H_filter']
-    if tuple(M.shape) != (NX, NY): raise shim.TraceError('numpy band-limit mask shape %s' % (M.shape,))
-    for i in range(NX):
-        for j in range(NY):
-            if not isinstance(M[i, j], shim.B): raise shim.TraceError('numpy band-limit mask is not boolean')
-            g.add('nblm_%d_%d' % (i, j), A3, M[i, j])
     return g, info
-
-
-def _collect(e, op, acc, seen):
-    """sub-expressions of e with the given operator (deduplicated by their Coq text)"""
-    if isinstance(e, shim.CE):
-        _collect(e.re, op, acc, seen); _collect(e.im, op, acc, seen); return
-    if not isinstance(e, (shim.E, shim.B)) or id(e) in seen: return
-    seen.add(id(e))
-    if isinstance(e, shim.E) and e.op == op:
-        key = shim.coq(e.a[0])
-        if key not in [k for k, _ in acc]: acc.append((key, e.a[0]))
-    for x in e.a:
-        _collect(x, op, acc, seen)
-
-
-def kernels():
-    """Run.GenWaveK for this property: the per-pixel transfer functions of both APIs under the names the shared tie files
-    Wave_TieK_{as,tf,nas,ntf} use.  Same method as tracer/recipes/wave.py (argument of the exponential = the phase), except for
-    the torch band-limited kernel, whose 0/1 mask and phase are read off the finished kernel (the condition of its only
-    conditional, the argument of its only cosine), so that the trace does not depend on HOW the kernel is assembled."""
-    g = Gen()
-    dx, lam, z, k = shim.var('dx'), shim.var('lam'), shim.var('z'), shim.var('k')
-    NU, NV, KARGS = W.NU, W.NV, W.KARGS
-    for tag, fname in (('as', 'get_angular_spectrum_kernel'), ('tf', 'get_transfer_function_fresnel_kernel')):
-        ns = shim.base_namespace(); store = []
-        W._record_exp(ns, store)
-        shim.load('odak/learn/wave/util.py', ['wavenumber', 'generate_complex_field'], ns)
-        shim.load('odak/learn/wave/classical.py', [fname], ns)
-        H = ns[fname](NU, NV, dx=dx, wavelength=lam, distance=z, device='cpu')
-        if tuple(H.shape) != (NU, NV) or not store: raise shim.TraceError('%s: kernel shape %s / no exponential' % (fname, H.shape))
-        ph = shim._np.broadcast_to(W._phase_of(store[-1]), (NU, NV))
-        for i in range(NU):
-            for j in range(NV):
-                g.add('%s_ph_%d_%d' % (tag, i, j), KARGS, ph[i, j])
-                if tag == 'as': g.add('as_rad_%d_%d' % (i, j), KARGS, W._radicand(ph[i, j]))
-                g.add('%s_re_%d_%d' % (tag, i, j), KARGS, H[i, j].re); g.add('%s_im_%d_%d' % (tag, i, j), KARGS, H[i, j].im)
-    ns = shim.base_namespace()
-    shim.load('odak/learn/wave/util.py', ['wavenumber', 'generate_complex_field'], ns)
-    shim.load('odak/learn/wave/classical.py', ['get_band_limited_angular_spectrum_kernel'], ns)
-    H = ns['get_band_limited_angular_spectrum_kernel'](NU, NV, dx=dx, wavelength=lam, distance=z, device='cpu')
-    if tuple(H.shape) != (NU, NV): raise shim.TraceError('band-limited kernel shape %s' % (H.shape,))
-    for i in range(NU):
-        for j in range(NV):
-            e = shim.CE.lift(H[i, j])
-            conds, coss = [], []
-            _collect(e, 'ite', conds, set()); _collect(e, 'cos', coss, set())
-            if len(conds) != 1 or not isinstance(conds[0][1], shim.B) or len(coss) != 1:
-                raise shim.TraceError('band-limited kernel pixel: %d conditionals, %d cosines (expected one mask and one phase)' % (len(conds), len(coss)))
-            g.add('bl_mask_%d_%d' % (i, j), KARGS, conds[0][1]); g.add('bl_ph_%d_%d' % (i, j), KARGS, coss[0][1])
-            g.add('bl_rad_%d_%d' % (i, j), KARGS, W._radicand(coss[0][1]))
-            g.add('bl_re_%d_%d' % (i, j), KARGS, e.re); g.add('bl_im_%d_%d' % (i, j), KARGS, e.im)
-    for tag, fname in (('nas', 'angular_spectrum'), ('ntf', 'transfer_function_fresnel'), ('nbl', 'band_limited_angular_spectrum')):
-        ns = opshim.namespace(); store = []
-        W._record_exp(ns, store)
-        shim.load('odak/wave/classical.py', [fname], ns)
-        term = ns[fname](opshim.fvar('u', shape=(NU, NV)), k, z, dx, lam)
-        lits = W._literals(term)
-        if len(lits) != 1 or tuple(lits[0].shape) != (NU, NV) or not store: raise shim.TraceError('%s: kernel literal / exponential' % fname)
-        ph = shim._np.broadcast_to(W._phase_of(store[-1]), (NU, NV))
-        for i in range(NU):
-            for j in range(NV):
-                e = shim.CE.lift(lits[0][i, j])
-                g.add('%s_ph_%d_%d' % (tag, i, j), ['k'] + KARGS, ph[i, j])
-                if tag in ('nas', 'nbl'): g.add('%s_rad_%d_%d' % (tag, i, j), ['k'] + KARGS, W._radicand(ph[i, j]))
-                if tag == 'nbl': g.add('nbl_mask_%d_%d' % (i, j), ['k'] + KARGS, W._mask_of_pixel(e))
-                g.add('%s_re_%d_%d' % (tag, i, j), ['k'] + KARGS, e.re); g.add('%s_im_%d_%d' % (tag, i, j), ['k'] + KARGS, e.im)
-    return g
 
 
 PIPE_HEADER = ('(* GENERATED on every run (C04): operator structure around the sampled impulse responses. *)\n'
